@@ -673,6 +673,8 @@ func (env *Env) index(x *EIndex) Val {
 		}
 		k := env.typed(kv, mt.Key())
 		return sc("(select "+v.T+" "+c.mapKey(k)+")", mt.Elem())
+	case v.K == VArr:
+		return arrSelect(v, env.idx(env.eval(x.I)))
 	case v.K == VScalar && v.Typ != nil && classOf(v.Typ) == CArray:
 		i := env.idx(env.eval(x.I))
 		return sc("(select "+v.T+" "+i+")", under(v.Typ).(*types.Array).Elem())
@@ -998,6 +1000,19 @@ func (env *Env) callExpr(x *ECall) Val {
 			ss = append(ss, flatSorts(c.zeroVal(pt))...)
 		}
 		rt := sub.resolveType(u.Ret)
+		if _, isPtr := under(rt).(*types.Pointer); isPtr && !c.ufs["ancient/"+name] && len(ss) > 0 {
+			// a pure function cannot return memory allocated by the function under analysis
+			c.ufs["ancient/"+name] = true
+			app := c.ufApp("uf$"+name, ts, ss, "Int")
+			_ = app
+			var decl, vars []string
+			for i, s := range ss {
+				v := fmt.Sprintf("q.u%d", i)
+				decl = append(decl, "("+v+" "+s+")")
+				vars = append(vars, v)
+			}
+			c.emit(fmt.Sprintf("(assert (forall (%s) (! (< (birth (uf$%s %s)) now0) :pattern ((uf$%s %s)))))", strings.Join(decl, " "), name, strings.Join(vars, " "), name, strings.Join(vars, " ")))
+		}
 		return sc(c.ufApp("uf$"+name, ts, ss, scalarSort(rt)), rt)
 	}
 	sfail("unknown function %s in specification", name)
@@ -1086,16 +1101,51 @@ func (env *Env) quant(x *EQuant) Val {
 	if len(x.Pats) > 0 {
 		var ps []string
 		for _, p := range x.Pats {
-			pv := e.eval(p)
-			ps = append(ps, pv.T)
+			t := e.patternTerm(p)
+			if t != "" {
+				ps = append(ps, t)
+			}
 		}
-		body = "(! " + body + " :pattern (" + strings.Join(ps, " ") + "))"
+		if len(ps) > 0 {
+			body = "(! " + body + " :pattern (" + strings.Join(ps, " ") + "))"
+		}
 	}
 	q := "exists"
 	if x.Forall {
 		q = "forall"
 	}
 	return sc("("+q+" ("+strings.Join(decls, " ")+") "+body+")", boolT)
+}
+
+// patternTerm renders a trigger; logical connectives are not allowed in SMT patterns, so
+// mapHas(m,k) is represented by its membership select and other boolean-structured terms are dropped.
+func (env *Env) patternTerm(p Expr) string {
+	if call, ok := p.(*ECall); ok {
+		if id, ok := call.Fn.(*EIdent); ok && id.Name == "mapHas" {
+			v := env.eval(call.Args[0])
+			mt := under(v.Typ).(*types.Map)
+			k := env.typed(env.eval(call.Args[1]), mt.Key())
+			m := env.c.mapInfo(v.Typ)
+			return fmt.Sprintf("(select (select %s %s) %s)", env.c.hget(env.cur, m.has), v.T, env.c.mapKey(k))
+		}
+	}
+	pv := env.eval(p)
+	if pv.K != VScalar {
+		ts := flat(pv)
+		if len(ts) == 0 {
+			return ""
+		}
+		pv.T = ts[len(ts)-1]
+	}
+	for _, bad := range []string{"(and ", "(or ", "(not ", "(=> ", "(= ", "(ite ", "(bvult ", "(bvslt ", "(bvsle ", "(bvule "} {
+		if strings.HasPrefix(pv.T, bad) {
+			return ""
+		}
+	}
+	if !strings.HasPrefix(pv.T, "(") {
+		return ""
+	}
+	return pv.T
 }
 
 // ---------- modifies targets ----------
